@@ -25,6 +25,14 @@ CHECKS = {
    text="Schedule exploration over message deliveries of a port made slave by the protocol: exhaustive enumeration of all schedules up to length 6 (thorough 7) over a 7-symbol alphabet plus sampled schedules with duplication, omission, reordering, late transmit timestamps, non-parent traffic, parent switches and delay-id wrap-around; every Measurement handed to a recording filter must equal bit-for-bit the IEEE formula of one exchange with matching sequence id from the current parent (exact integer oracle).",
    note="Double transmit timestamps are unrepresentable through the public API. A vacuity guard (clean in-order exchange must yield two measurements) exits 2, not 1.",
    technique="schedule enumeration + sampled schedules with an exact single-exchange oracle"),
+ "C14": dict(level="exploration", design="DESIGN.md §4 C14",
+   text="Schedule exploration on a peer-to-peer port in every state in which the exchange runs: exhaustive enumeration of all schedules up to length 6 (thorough 7) over {delay timer, tx timestamp, Pdelay_Resp/Follow_Up of responders R1 and R2, receipt timer} plus sampled schedules (one/two-step, duplicates, stale ids, other requesters, timers, BMCA, clean exchanges); exact integer oracle per (request, first responder) and the fault rules: second responder => Faulty at once and never used; while Faulty no master traffic; Faulty is left only through a completed peer-delay exchange; a single-responder exchange clears it.",
+   note="Whether the port may already recover through the faulted exchange when its first responder completes it is not asserted either way.",
+   technique="schedule enumeration + sampled schedules with exact arithmetic oracle and state invariants"),
+ "C03": dict(level="exploration", design="DESIGN.md §4 C03",
+   text="Stateful generated histories over the whole host-call alphabet, drawn online against the port's observed state so that deep states are reached, with boundary-lattice fields, frames to 2048 bytes, TLV sizes around every margin, mutated and raw frames, all port configurations and all three filters; oracle = every call returns (panic hook + catch_unwind) and no nested lock acquisition; run in a build with debug assertions + overflow checks and in a build without; saved failing inputs are replayed as a regression corpus.",
+   note="evidence/C03.json is written by the checked-build run, evidence/C03.unchecked.json by the unchecked-build run of the same command. Configuration values outside what the daemon's config accepts are not generated.",
+   technique="stateful property-based testing / fuzzing with a crash oracle in two build profiles, shrinking to a replay tape"),
 }
 NA_REASON = "check not built yet in this round (design in DESIGN.md §4); will be claimed once its check exists"
 
